@@ -1033,6 +1033,7 @@ def rule_r11(ctx) -> RuleResult:
             and derived_from_slice(n.left) and derived_from_slice(n.comparators[0])]
     if not cmps:
         raise AnalysisError("detect_expand_template_loop: the comparison of slices of the path was not recognised")
+    loops_with_cmp: set = set()
     for c in cmps:
         n = c
         in_loop = False
@@ -1042,12 +1043,67 @@ def rule_r11(ctx) -> RuleResult:
                 in_loop = True
         if in_loop:
             rr.ok(dotted, "`{}` is evaluated for every candidate of an enclosing loop".format(unparse(c)[:70]))
+            loops_with_cmp.update(id(x) for x in _enclosing_loops(parents, c, fn))
         else:
             rr.bad(Finding("C05.R11", X.CORE, dotted, unparse(c)[:100],
                            "the repetition test is evaluated for a single candidate period: a cycle in which the template just entered occurs "
                            "twice per period (two routes of different length back to itself) is never recognised, and with several recursive "
                            "calls per step expand() runs for about 2^100 steps", c.lineno))
+    # A verdict given inside the enumeration ends it.  `return True` is final by definition; a negative verdict (or the outcome of
+    # one candidate's comparison) returned from inside the loop is right only if it says something about *all* remaining
+    # candidates, which a test on the contents of the path for one candidate does not (seed C05-8A: return at the nearest
+    # earlier occurrence of the frame just pushed).  Tests on sizes alone (`if 2 * size > len(stack): return False`) are fine.
+    content = {param}
+    changed = True
+    while changed:
+        changed = False
+        for a in ast.walk(fn):
+            if isinstance(a, ast.Assign) and len(a.targets) == 1 and isinstance(a.targets[0], ast.Name) and a.targets[0].id not in content:
+                if _mentions_content(a.value, content, param):
+                    content.add(a.targets[0].id)
+                    changed = True
+    content.discard(param)
+    for lp in [n for n in ast.walk(fn) if isinstance(n, ast.For) and id(n) in loops_with_cmp]:
+        for r in [n for b in lp.body for n in ast.walk(b) if isinstance(n, ast.Return)]:
+            v = r.value
+            if isinstance(v, ast.Constant) and v.value is True:
+                continue
+            conds = [t for t, truth in X.path_conditions(parents, r) if any(x is lp for x in _enclosing_loops(parents, t, fn))]
+            if isinstance(v, ast.Constant) or v is None:
+                dep = [t for t in conds if _mentions_content(t, content, param)]
+                if not dep:
+                    rr.ok(dotted, "early negative verdict depends on sizes only (line {})".format(r.lineno))
+                    continue
+                why = "under `{}`, a test on the contents of the path for this one candidate".format(unparse(dep[0])[:60])
+            elif _mentions_content(v, content, param):
+                why = "the outcome of one candidate's comparison is returned as the verdict"
+            else:
+                continue
+            rr.bad(Finding("C05.R11", X.CORE, dotted, "return inside the enumeration of periods: `{}`".format(unparse(r)[:70]),
+                           "the detector answers 'no loop' from inside the enumeration of candidate periods ({}); the remaining candidates are "
+                           "never tried, so a cycle whose period contains the frame just entered more than once is not recognised".format(why),
+                           r.lineno))
     return rr
+
+
+def _enclosing_loops(parents, node, fn):
+    n = node
+    while n in parents and n is not fn:
+        n = parents[n]
+        if isinstance(n, (ast.For, ast.While)):
+            yield n
+
+
+def _mentions_content(e, content: set, param: str) -> bool:
+    """does the expression read elements of the path (the parameter other than through len(), or a name derived from it)?"""
+    skip = set()
+    for n in ast.walk(e):
+        if isinstance(n, ast.Call) and isinstance(n.func, ast.Name) and n.func.id == "len" and len(n.args) == 1:
+            skip |= {id(x) for x in ast.walk(n.args[0])}
+    for n in ast.walk(e):
+        if isinstance(n, ast.Name) and id(n) not in skip and (n.id == param or n.id in content):
+            return True
+    return False
 
 
 def rule_r12(ctx) -> RuleResult:
